@@ -1,5 +1,8 @@
 import ClipVerif.Proofs.C14
 import ClipVerif.Proofs.C14b
+import ClipVerif.Model.PIP
+import ClipVerif.Model.Conv
+import ClipVerif.Proofs.PIP
 /-
 C14 — geometric measures and predicates are exact.  Theorems only; helper lemmas are in
 `ClipVerif/Proofs/C14.lean`.  All statements are about the *generated* model `Gen.*`
@@ -98,5 +101,18 @@ theorem GetBounds64_empty : GetBounds64 [] = ⟨0, 0, 0, 0⟩ := Proofs.C14.GetB
 example : (⟨0, 0⟩ : Point64).inRange ∧ (⟨2, 4⟩ : Point64).inRange ∧
     ((⟨2, 4⟩ : Point64).X - (⟨0, 0⟩ : Point64).X ≠ 1) := by
   refine ⟨by unfold Point64.inRange; decide, by unfold Point64.inRange; decide, by decide⟩
+
+/-- `PointInPolygon` is exact (even-odd sense) within the coordinate domain: IsOn (0) exactly on the
+    boundary, IsInside (1) exactly where the winding number is odd, IsOutside (2) elsewhere — for
+    every polygon of at least three vertices that is not contained in the horizontal line through
+    the point.  About the hand model `Model.pointInPolygon` (tied by `models-corr pip`), which calls
+    the generated `CrossProduct`. -/
+theorem pip_correct (pt : Point64) (poly : Array Point64)
+    (hp : pt.inRange) (hr : ∀ q ∈ poly.toList, q.inRange) (h3 : 3 ≤ poly.size)
+    (hflat : ∃ q ∈ poly.toList, q.Y ≠ pt.Y) :
+    Model.pointInPolygon pt poly =
+      (if Spec.onPath (pathToI poly.toList) ⟨(pt.X.toInt : Rat), (pt.Y.toInt : Rat)⟩ then 0
+       else if Spec.wind (pathToI poly.toList) ⟨(pt.X.toInt : Rat), (pt.Y.toInt : Rat)⟩ % 2 ≠ 0 then 1 else 2) :=
+  Proofs.PIP.pip_correct pt poly hp hr h3 hflat
 
 end C14
